@@ -159,7 +159,14 @@ def depth_width(s):
 # ---------------------------------------------------------------- generators
 def gen_tree(rng, depth, width):
     names = ["a", "b", "mapping", "uint64_t", "x y", "é", "\0", "日本", "𝔘",
-             "set", "T1", " ", "\n", "a.b", "()"]
+             "set", "T1", " ", "\n", "a.b", "()",
+             # characters a parser might treat specially although the grammar
+             # does not: noncharacters, format directives, quotes, brackets
+             # of other kinds, escapes, the byte order mark
+             "\uffff", "a\uffffb", "\ufffe", "\ufeff", "%s", "%d", "%", "%(x)s",
+             "{}", "{0}", "\\", "'", '"', "[", "]", "(", ")", ";", ":",
+             "\t", "\r", "\x7f", "\udbff\udfff".encode(
+                 "utf-16", "surrogatepass").decode("utf-16")]
     def go(d):
         name = rng.choice(names)
         if d <= 0 or rng.random() < 0.35:
@@ -189,7 +196,7 @@ def mutate(rng, s):
     if k == 0:
         del toks[i]
     elif k == 1:
-        toks.insert(i, rng.choice(["<", ">", ",", "z"]))
+        toks.insert(i, rng.choice(["<", ">", ",", "z", "%s", "\uffff"]))
     elif k == 2 and len(toks) > 1:
         j = rng.randrange(len(toks))
         toks[i], toks[j] = toks[j], toks[i]
